@@ -420,7 +420,11 @@ def check_catalogue(res, f, label, yml, me, genome):
             if rng.end - rng.start <= 0:
                 continue
             for pos in (rng.start, rng.end - 1):
-                got = me.has_coverage(mj, pos)
+                try:
+                    got = me.has_coverage(mj, pos)
+                except Raised as e_:
+                    bad("C09.R5", f"{tag}: asking whether allele {mj} has gene copies at position {pos} (region {r}) raises {e_}")
+                    continue
                 want_cov = conf.cn[0][r] > 0
                 if bool(got) != want_cov:
                     bad("C09.R5", f"{tag}: allele {mj} (configuration {al.cn_config}) at region {r}: has_coverage says {got}, the configuration keeps {conf.cn[0][r]} copies")
